@@ -21,6 +21,8 @@ type H = DaemonH<VringRwLock, ()>;
 pub enum PStep {
     Send(Vec<u8>),
     Close,
+    /// the peer shuts down its sending direction only and keeps reading
+    HalfClose,
 }
 
 #[derive(Clone, Debug)]
@@ -128,6 +130,13 @@ impl Scenario for Sc16 {
                 s.h.peer = None;
                 s.peer_closed = true;
                 "close".into()
+            }
+            PStep::HalfClose => {
+                if let Some(p) = &s.h.peer {
+                    let _ = p.shutdown(std::net::Shutdown::Write);
+                }
+                s.peer_closed = true;
+                "half-close".into()
             }
         }
     }
@@ -287,6 +296,10 @@ fn scenarios(thorough: bool) -> Vec<Sc16> {
         ("close-at-15".into(), vec![PStep::Send(req[..15].to_vec()), PStep::Close]),
         ("close-after-request".into(), vec![PStep::Send(req.clone()), PStep::Close]),
         ("invalid-header".into(), vec![PStep::Send(header(200, F_VERSION, 0).to_vec())]),
+        // the peer stops sending but keeps reading: it must see end-of-stream once the daemon stops serving
+        ("half-close-at-0".into(), vec![PStep::HalfClose]),
+        ("half-close-at-5".into(), vec![PStep::Send(req[..5].to_vec()), PStep::HalfClose]),
+        ("half-close-at-12".into(), vec![PStep::Send(req[..12].to_vec()), PStep::HalfClose]),
         // a request that is answered: the shutdown can fall before / after the daemon writes the reply
         ("request-with-reply".into(), vec![PStep::Send(message(GET_FEATURES, F_VERSION, &[]))]),
         ("request-with-reply-then-close".into(), vec![PStep::Send(message(GET_FEATURES, F_VERSION, &[])), PStep::Close]),
@@ -329,14 +342,14 @@ fn close_offsets(rep: &mut Report) {
     let req = message(SET_FEATURES, F_VERSION, &p_u64(0x3));
     let threads_before = std::fs::read_dir("/proc/self/task").map(|d| d.count()).unwrap_or(0);
     for cut in 0..=req.len() {
-        for use_serve in [false, true] {
-            let case = json!({"check":"C16","part":"close_offsets","cut":cut,"serve":use_serve});
+        for (use_serve, half) in [(false, false), (true, false), (false, true)] {
+            let case = json!({"check":"C16","part":"close_offsets","cut":cut,"serve":use_serve,"half_close":half});
             rep.evaluations += 1;
             rep.transitions += 1;
             let be = TBackend::<VringRwLock, ()>::new(Cfg::default());
             let mem = vm_memory::GuestMemoryAtomic::new(vm_memory::GuestMemoryMmap::<()>::new());
             let mut daemon = VhostUserDaemon::new("vmc-daemon".into(), be.clone(), mem).unwrap();
-            let path = format!("/tmp/vmc-c16-{}-{}-{}.sock", std::process::id(), cut, use_serve as u8);
+            let path = format!("/tmp/vmc-c16-{}-{}-{}.sock", std::process::id(), cut, use_serve as u8 + 2 * half as u8);
             let res: String;
             if use_serve {
                 let p2 = path.clone();
@@ -394,6 +407,26 @@ fn close_offsets(rep: &mut Report) {
                 let s = UnixStream::connect(&path).unwrap();
                 daemon.start(&mut listener).unwrap();
                 send_with_fds(s.as_raw_fd(), &req[..cut], &[]);
+                if half && cut < req.len() {
+                    // the peer stops sending but keeps its end open and reads: once the daemon has
+                    // stopped serving (it reads end-of-stream inside a request) the peer must see
+                    // end-of-stream too. (The timeout only bounds the failing case.)
+                    use std::io::Read;
+                    let _ = s.shutdown(std::net::Shutdown::Write);
+                    let _ = s.set_read_timeout(Some(std::time::Duration::from_secs(3)));
+                    let mut b = [0u8; 64];
+                    let mut s2 = &s;
+                    match s2.read(&mut b) {
+                        Ok(0) => {
+                            rep.outcome("half-close:peer-sees-end-of-stream");
+                            rep.nontrivial += 1;
+                        }
+                        other => {
+                            rep.outcome("half-close:no-end-of-stream");
+                            rep.violation("C16:peer-does-not-see-end-of-stream", &format!("peer shut down its sending side at byte {cut} and keeps reading: {:?} instead of end-of-stream", other.map_err(|e| e.kind())), case.clone());
+                        }
+                    }
+                }
                 drop(s);
                 let r = daemon.wait();
                 res = match &r {
@@ -465,7 +498,7 @@ pub fn run(rep: &mut Report) {
     rep.extra.insert("scenarios".into(), json!(done));
     rep.extra.insert("scenarios_total".into(), json!(scs.len()));
     rep.extra.insert("per_scenario".into(), json!(per_scenario));
-    rep.rule = "E2: for 0..=3 shutdown callers x peer behaviours {idle, header only, full request, 2 and 3 fragments, close at byte 0/5/12/15/after the request (more offsets at thorough), invalid header, a request that is answered (shutdown before / after the reply is written), answered request then close}: all schedules of {daemon thread, shutdown callers (a point before the call and at the socket shutdown, i.e. between flag store and socket shutdown), peer script} with at most 2 (3 at thorough) preemptions; at quiescence the explorer performs wait(), reads the peer socket and starts a second connection on the same listener; in the '+waiter' scenarios (0..=2 callers) wait() is instead called by a real thread that enters it at any point of the schedule (before or after the shutdown requests / the disconnect) and blocks in the join. Sequential part: peer close at every byte offset 0..=20 of a request x {start+wait, serve()} and the process's thread count after dropping all daemons. Non-trivial = schedules with a real choice / offsets whose result mapping was verified".into();
+    rep.rule = "E2: for 0..=3 shutdown callers x peer behaviours {idle, header only, full request, 2 and 3 fragments, close at byte 0/5/12/15/after the request (more offsets at thorough), half-close (peer stops sending, keeps reading) at byte 0/5/12, invalid header, a request that is answered (shutdown before / after the reply is written), answered request then close}: all schedules of {daemon thread, shutdown callers (a point before the call and at the socket shutdown, i.e. between flag store and socket shutdown), peer script} with at most 2 (3 at thorough) preemptions; at quiescence the explorer performs wait(), reads the peer socket and starts a second connection on the same listener; in the '+waiter' scenarios (0..=2 callers) wait() is instead called by a real thread that enters it at any point of the schedule (before or after the shutdown requests / the disconnect) and blocks in the join. Sequential part: peer close (and half-close followed by reading) at every byte offset 0..=20 of a request x {start+wait, serve()} and the process's thread count after dropping all daemons. Non-trivial = schedules with a real choice / offsets whose result mapping was verified".into();
     rep.assumptions.push("without a waiter thread wait() is executed by the explorer once the daemon thread has exited; 'would never return' is decided when the daemon thread is disabled forever; a thread blocked in the join is recognised through /proc (futex wait)".into());
 }
 
